@@ -42,16 +42,23 @@ def load_contracts(src):
         comp.register_composites(src)
         import contracts.unions as _un
         _un.register_unions(src)
+        _un.register_union_build(src)
         import contracts.repeaters as _rp
         _rp.register_repeaters(src)
         _rp.register_array_build(src)
+        _rp.register_greedyrange_build(src)
+        import contracts.repeatuntil as _ru
+        _ru.register_repeatuntil(src)
+        _ru.register_repeatuntil_build(src)
         _rp.register_sum_sizes(src)
         import contracts.sequences as _sq
         _sq.register_sequences(src)
         _sq.register_focused(src)
         _sq.register_sequence_build(src)
+        _sq.register_focused_build(src)
         import contracts.alternatives as _al
         _al.register_alternatives(src)
+        _al.register_select_build(src)
         import contracts.foldlemmas  # noqa  (lemmas over the Array folds; needs the fold definitions registered above)
     import contracts.classes as cc
     gens = cc.generic_contracts(src)
